@@ -486,3 +486,54 @@ def guards(node: ast.AST, stop: Optional[ast.AST] = None) -> list[tuple[ast.AST,
         child = p
         p = getattr(p, "_parent", None)
     return list(reversed(out))
+
+
+# ---------------------------------------------------------------------------------------------------------
+# guard facts: polarity- and orientation-insensitive view of the syntactic guards
+
+_NEGOP = {ast.Lt: ast.GtE, ast.Gt: ast.LtE, ast.LtE: ast.Gt, ast.GtE: ast.Lt, ast.Eq: ast.NotEq, ast.NotEq: ast.Eq, ast.Is: ast.IsNot, ast.IsNot: ast.Is, ast.In: ast.NotIn, ast.NotIn: ast.In}
+_FLIPOP = {ast.Lt: ast.Gt, ast.Gt: ast.Lt, ast.LtE: ast.GtE, ast.GtE: ast.LtE, ast.Eq: ast.Eq, ast.NotEq: ast.NotEq}
+
+
+def negate(e: ast.AST) -> ast.AST:
+    if isinstance(e, ast.UnaryOp) and isinstance(e.op, ast.Not):
+        return e.operand
+    if isinstance(e, ast.Compare) and len(e.ops) == 1 and type(e.ops[0]) in _NEGOP:
+        return ast.Compare(left=e.left, ops=[_NEGOP[type(e.ops[0])]()], comparators=e.comparators)
+    if isinstance(e, ast.BoolOp):
+        return ast.BoolOp(op=ast.And() if isinstance(e.op, ast.Or) else ast.Or(), values=[negate(v) for v in e.values])
+    return ast.UnaryOp(op=ast.Not(), operand=e)
+
+
+def conjuncts(e: ast.AST) -> list:
+    if isinstance(e, ast.BoolOp) and isinstance(e.op, ast.And):
+        out = []
+        for v in e.values:
+            out += conjuncts(v)
+        return out
+    return [e]
+
+
+def forms(a: ast.AST) -> set:
+    """text forms of one atomic fact: itself and, for a two-operand comparison, the flipped orientation."""
+    out = {ast.unparse(a)}
+    if isinstance(a, ast.Compare) and len(a.ops) == 1 and type(a.ops[0]) in _FLIPOP:
+        out.add(ast.unparse(ast.Compare(left=a.comparators[0], ops=[_FLIPOP[type(a.ops[0])]()], comparators=[a.left])))
+    return out
+
+
+def facts(node: ast.AST, stop: Optional[ast.AST] = None) -> set:
+    """Atomic facts (as text, both comparison orientations) that hold whenever `node` executes, derived from its syntactic guards:
+    true-arm tests contribute their conjuncts, false-arm tests the conjuncts of their negation (De Morgan, negated comparisons)."""
+    out = set()
+    for t, pol in guards(node, stop):
+        e = t if pol else negate(t)
+        for a in conjuncts(e):
+            out |= forms(a)
+    return out
+
+
+def holds(node: ast.AST, *patterns: str, stop: Optional[ast.AST] = None) -> bool:
+    """True iff every pattern (text of an atomic fact, any orientation) is among the guard facts of node."""
+    f = facts(node, stop)
+    return all(any(x in f for x in forms(ast.parse(p, mode="eval").body)) for p in patterns)
